@@ -1,17 +1,47 @@
 """C19  Gas phases obey their equation of state and fugacity-based equilibrium.
 
 Shape L: the full Cartesian lattice
-    gas subset (size 1..k of 7 database gases) x phase type {fixed volume, fixed pressure} x pressure level x temperature
-    x initial definition {partial pressures, moles (GAS_PHASE_MODIFY), -equilibrate} x solution {pure water, pre-saturated}
+    gas subset (size 1..k of 7 database gases) x mode (phase type {fixed volume, fixed pressure} x initial definition
+    {partial pressures, moles (GAS_PHASE_MODIFY), -equilibrate} x solution {pure water, pre-saturated} x history {fresh,
+    warm}) x pressure level (8, 0.01..1000 atm) x temperature
     x database {phreeqc.dat (critical constants => Peng-Robinson), phreeqc.dat with altered GAS_BINARY_PARAMETERS,
                 phreeqc.dat without -T_c/-P_c/-Omega (ideal gas)}
-plus the same gases as EQUILIBRIUM_PHASES.  Every point is run once on the real library (fresh instance, database
-re-loaded) and every reported row is judged by mc/oracles/c19_gas.py (Peng-Robinson / ideal gas written from the
+plus the same gases as EQUILIBRIUM_PHASES (x history).  Every point is run once on the real library (fresh instance,
+database re-loaded) and every reported row is judged by mc/oracles/c19_gas.py (Peng-Robinson / ideal gas written from the
 manual + Peng & Robinson 1976, critical constants and k_ij parsed from the database text).
+
+History "warm": the same calculation is first run at 60 C in the same instance (reactants numbered 9, nothing punched),
+so that everything the engine caches per phase between calculations (alpha(T), phi, corrected log K) is stale when the
+judged simulation starts.  (Added after calibration: a mutant that mis-computes alpha only when the temperature of a
+phase changes inside one instance was invisible to a lattice of fresh instances.)
+
+Pre-saturated solution: pH from charge balance and phase boundaries X(valence) <-> gas at the gas's partial pressure; for
+NH3 the boundary pressure is capped at 0.1 atm.  (The first version fixed pH 7 and did not cap: 1150 of 15168 quick
+points then failed in the *initial solution* - hundreds of mol/kgw NH4+/HCO3- - which was an input-generation problem,
+not a gas-phase result.)  The remaining not-completed runs (~10 %) are convergence failures of the batch reaction itself,
+three quarters of them at 300 / 1000 atm (tens of moles of gas against 0.1 kg water) or in redox-reactive pairs
+(O2+H2S, O2+NH3, N2+NH3); they are counted, not judged (rule R2).
+
+What is judged on every completed batch-reaction row (statement clause -> relation, tolerance):
+  (b) EOS: ideal gas P V = n R T, or Peng-Robinson P(V/n, T, x) with a, b, alpha, k_ij from the database text; 1e-4;
+      PR only where the cubic has a single real root (statement: "outside the two-phase region of the cubic")
+  (c) p_i = x_i P and sum p_i = P (1e-4)
+  (d) phi_i = Peng-Robinson fugacity coefficient, 1e-6, only strictly inside the clamp (0.0101, 84)
+  (e) phi_i p_i = 10^SI_i (1e-4)
+  (f) a fixed-pressure phase that exists has sum_i 10^SI_i / phi_i >= P (the converse is a diagnostic only)
+  (a) the initial definition from partial pressures (DUMP of the stored GAS_PHASE): x_i = p_i / P and EOS
+  EQUILIBRIUM_PHASES gases: phi p = 10^SI; phi against the pure-gas EOS for single gases (ideal: phi = 1).
+Not claimed: anything inside the three-root region of the cubic except the identities (c), (e), (f); rows whose reported
+pressure is outside 0.01..1000 atm; components below mole fraction 1e-9.
+
+Calibration result on the unchanged tree: one genuine defect (known finding F13, fingerprint
+"fugacity vs SI: fixed-volume Peng-Robinson gas without a PR state at V/n (10^SI = 2^k phi p)"): gases.cpp calc_PR()
+doubles V_m until the PR pressure is positive and the run completes with 10^SI = 2^k phi p.
 """
 import itertools
 import math
 import os
+import sys
 
 from .. import build, core, drv
 from ..oracles import c19_gas as G
@@ -22,8 +52,12 @@ DBFILE = os.path.join(build.REPO, "database", "phreeqc.dat")
 GASES = ["CO2(g)", "CH4(g)", "N2(g)", "O2(g)", "H2S(g)", "H2O(g)", "NH3(g)"]
 # element / valence state whose total is fixed by a phase boundary when the solution is pre-saturated with the gas
 BOUNDARY = {"CO2(g)": "C(4)", "CH4(g)": "C(-4)", "N2(g)": "N(0)", "O2(g)": "O(0)", "H2S(g)": "S(-2)", "NH3(g)": "N(-3)"}
+# pre-saturation of the solution with NH3 is capped at 0.1 atm (6 mol/kgw): the aqueous model of phreeqc.dat has no
+# solution for ammonia at >= 1 atm (> 58 mol/kgw), the *initial solution* then fails before any gas calculation
+SAT_CAP = {"NH3(g)": 0.1}
 P_LEVELS = [0.01, 0.1, 1.0, 10.0, 50.0, 100.0, 300.0, 1000.0]
 T_LEVELS = [25.0, 100.0, 200.0, 0.0]
+T_WARM = 60.0          # temperature of the preceding calculation in the history dimension (not a lattice temperature)
 WEIGHTS = {1: [1.0], 2: [2.0 / 3, 1.0 / 3], 3: [4.0 / 7, 2.0 / 7, 1.0 / 7]}
 # altered binary interaction parameters for database variant "kij" (values are arbitrary but plausible; pairs that the
 # shipped database does not list are included, one is negative, one pair is listed in the reverse order)
@@ -63,12 +97,15 @@ def fmt(v):
     return repr(float(v))
 
 
-def solution_block(case, pp):
-    lines = ["SOLUTION 1", " temp %s" % fmt(case["T"]), " pH 7", " -water 0.1"]
+def solution_block(case, pp, n=1):
+    lines = ["SOLUTION %d" % n, " temp %s" % fmt(case["T"]), " pH 7", " -water 0.1"]
     if case["soln"] == "sat":
+        # pH follows from charge balance: at a fixed pH 7 a solution "saturated" with NH3 / CO2 / H2S at high pressure would
+        # need hundreds of mol/kgw of NH4+ / HCO3- / HS- and the initial speciation (not the gas calculation) fails
+        lines[2] = " pH 7 charge"
         for g, p in pp:
             if g in BOUNDARY and p > 0:
-                lines.append(" %s 1 %s %s" % (BOUNDARY[g], g, fmt(math.log10(p))))
+                lines.append(" %s 1 %s %s" % (BOUNDARY[g], g, fmt(math.log10(min(p, SAT_CAP.get(g, p))))))
     return lines
 
 
@@ -92,35 +129,45 @@ def partial_pressures(case):
 
 
 def build_input(case):
+    if case.get("hist") == "warm":
+        # history dimension: the same calculation at T_WARM (reactants numbered 9, no selected output) is run first in the
+        # same instance, so every per-phase quantity the engine caches between calculations (Peng-Robinson alpha(T),
+        # fugacity coefficient, pressure-corrected log K) is stale when the judged simulation starts
+        return build_sim(dict(case, T=T_WARM), 9, False) + build_sim(case, 1, True)
+    return build_sim(case, 1, True)
+
+
+def build_sim(case, n, punch):
     pp = partial_pressures(case)
     TK = case["T"] + 273.15
     if case["kind"] == "equi":
-        lines = solution_block(dict(case, soln="water"), pp)
-        lines.append("EQUILIBRIUM_PHASES 1")
+        lines = solution_block(dict(case, soln="water"), pp, n)
+        lines.append("EQUILIBRIUM_PHASES %d" % n)
         for g, p in pp:
             lines.append(" %s %s 10" % (g, fmt(math.log10(p))))
-        lines += punch_block(case["gases"], "equi") + ["END"]
+        lines += (punch_block(case["gases"], "equi") if punch else []) + ["END"]
         return "\n".join(lines) + "\n"
-    gas = ["GAS_PHASE 1", " -fixed_volume" if case["type"] == "V" else " -fixed_pressure"]
+    gas = ["GAS_PHASE %d" % n, " -fixed_volume" if case["type"] == "V" else " -fixed_pressure"]
     if case["type"] == "P":
         gas.append(" -pressure %s" % fmt(case["P"]))
     gas += [" -volume 1", " -temperature %s" % fmt(case["T"])]
     if case["init"] == "equil":
-        gas.append(" -equilibrate 1")
+        gas.append(" -equilibrate %d" % n)
         gas += [" %s" % g for g, p in pp]
     else:
         gas += [" %s %s" % (g, fmt(p)) for g, p in pp]
     if case["init"] == "mol":
         # simulation 1 defines the gas phase alone (no solution: nothing reacts); simulation 2 overwrites the moles
-        lines = gas + ["END", "GAS_PHASE_MODIFY 1"]
+        lines = gas + ["END", "GAS_PHASE_MODIFY %d" % n]
         for g, p in pp:
             lines += [" -component %s" % g, "  -moles %s" % fmt(p * 1.0 / (G.R * TK))]
-        lines += solution_block(case, pp) + ["USE gas_phase 1"]
+        lines += solution_block(case, pp, n) + ["USE gas_phase %d" % n]
     else:
-        lines = solution_block(case, pp) + gas
-    lines += punch_block(case["gases"], "gas")
-    if case["init"] == "pp":
-        lines += ["DUMP", " -gas_phase 1"]
+        lines = solution_block(case, pp, n) + gas
+    if punch:
+        lines += punch_block(case["gases"], "gas")
+        if case["init"] == "pp":
+            lines += ["DUMP", " -gas_phase 1"]
     lines.append("END")
     return "\n".join(lines) + "\n"
 
@@ -455,6 +502,8 @@ def run_case(case):
     react = [r for r in rows if r["state"] == "react"]
     if len(react) != 1:
         raise RuntimeError("expected exactly one batch-reaction row, got %d for %r" % (len(react), case))
+    if case.get("hist") == "warm":
+        j.flags.add("history:warm (judged after the same calculation at %g C in the same instance)" % T_WARM)
     if case["kind"] == "equi":
         j.equi_row(react[0])
     else:
@@ -520,17 +569,26 @@ def subsets(kmax, pool=GASES):
     return out
 
 
-def gas_cases(dbv, subs, plevels, tlevels):
+# (phase type, initial definition, solution, history)
+MODES = [("V", "pp", "water", "fresh"), ("V", "pp", "sat", "fresh"), ("V", "mol", "water", "fresh"), ("V", "mol", "sat", "fresh"),
+         ("V", "equil", "sat", "fresh"), ("P", "pp", "water", "fresh"), ("P", "pp", "sat", "fresh"), ("P", "mol", "water", "fresh"),
+         ("P", "mol", "sat", "fresh"), ("V", "pp", "water", "warm"), ("P", "pp", "water", "warm")]
+
+
+# thorough: every mode with both histories
+MODES_T = [m[:3] + (h,) for h in ("fresh", "warm") for m in MODES if m[3] == "fresh"]
+P_LEVELS_T = [0.01, 0.1, 1.0, 3.0, 10.0, 30.0, 50.0, 100.0, 300.0, 1000.0]
+
+
+def gas_cases(dbv, subs, plevels, tlevels, modes=MODES):
     out = []
-    modes = [("V", "pp", "water"), ("V", "pp", "sat"), ("V", "mol", "water"), ("V", "mol", "sat"), ("V", "equil", "sat"),
-             ("P", "pp", "water"), ("P", "pp", "sat"), ("P", "mol", "water"), ("P", "mol", "sat")]
-    for (gs, (ty, init, soln), P, T) in core.product(subs, modes, plevels, tlevels):
-        out.append({"kind": "gas", "db": dbv, "gases": gs, "type": ty, "init": init, "soln": soln, "P": P, "T": T})
+    for (gs, (ty, init, soln, hist), P, T) in core.product(subs, modes, plevels, tlevels):
+        out.append({"kind": "gas", "db": dbv, "gases": gs, "type": ty, "init": init, "soln": soln, "hist": hist, "P": P, "T": T})
     return out
 
 
 def equi_cases(dbv, subs, plevels, tlevels):
-    return [{"kind": "equi", "db": dbv, "gases": gs, "P": P, "T": T} for (gs, P, T) in core.product(subs, plevels, tlevels)]
+    return [{"kind": "equi", "db": dbv, "gases": gs, "hist": hist, "P": P, "T": T} for (gs, hist, P, T) in core.product(subs, ["fresh", "warm"], plevels, tlevels)]
 
 
 def kij_subsets(kmax):
@@ -544,19 +602,27 @@ def bounds(tier):
         s2 = subsets(2)
         tl = [25.0, 100.0, 200.0]
         return [
-            ("ideal gas: subsets<=2 x 9 modes x 8 P x 3 T", gas_cases("ideal", s2, P_LEVELS, tl)),
-            ("Peng-Robinson: subsets<=2 x 9 modes x 8 P x 3 T", gas_cases("pr", s2, P_LEVELS, tl)),
-            ("altered k_ij: affected pairs x 9 modes x 8 P x 3 T", gas_cases("kij", [s for s in kij_subsets(2)], P_LEVELS, tl)),
-            ("EQUILIBRIUM_PHASES: subsets<=2 x 8 P x 3 T x {ideal, PR}", equi_cases("ideal", s2, P_LEVELS, tl) + equi_cases("pr", s2, P_LEVELS, tl)),
+            ("ideal gas: subsets<=2 x 11 modes x 8 P x 3 T", gas_cases("ideal", s2, P_LEVELS, tl)),
+            ("Peng-Robinson: subsets<=2 x 11 modes x 8 P x 3 T", gas_cases("pr", s2, P_LEVELS, tl)),
+            ("altered k_ij: affected pairs x 11 modes x 8 P x 3 T", gas_cases("kij", [s for s in kij_subsets(2)], P_LEVELS, tl)),
+            ("EQUILIBRIUM_PHASES: subsets<=2 x {fresh, warm} x 8 P x 3 T x {ideal, PR}", equi_cases("ideal", s2, P_LEVELS, tl) + equi_cases("pr", s2, P_LEVELS, tl)),
         ]
     s3 = subsets(3)
+    pl = P_LEVELS_T
     return [
-        ("ideal gas: subsets<=3 x 9 modes x 8 P x 4 T", gas_cases("ideal", s3, P_LEVELS, T_LEVELS)),
-        ("Peng-Robinson: subsets<=3 x 9 modes x 8 P x 4 T", gas_cases("pr", s3, P_LEVELS, T_LEVELS)),
-        ("altered k_ij: affected subsets<=3 x 9 modes x 8 P x 4 T", gas_cases("kij", kij_subsets(3), P_LEVELS, T_LEVELS)),
-        ("EQUILIBRIUM_PHASES: subsets<=2 x 8 P x 4 T x {ideal, PR, altered k_ij}",
-         equi_cases("ideal", subsets(2), P_LEVELS, T_LEVELS) + equi_cases("pr", subsets(2), P_LEVELS, T_LEVELS) + equi_cases("kij", subsets(1), P_LEVELS, T_LEVELS)),
+        ("ideal gas: subsets<=3 x 18 modes x 10 P x 4 T", gas_cases("ideal", s3, pl, T_LEVELS, MODES_T)),
+        ("Peng-Robinson: subsets<=3 x 18 modes x 10 P x 4 T", gas_cases("pr", s3, pl, T_LEVELS, MODES_T)),
+        ("altered k_ij: affected subsets<=3 x 18 modes x 10 P x 4 T", gas_cases("kij", kij_subsets(3), pl, T_LEVELS, MODES_T)),
+        ("EQUILIBRIUM_PHASES: subsets<=2 x {fresh, warm} x 10 P x 4 T x {ideal, PR, altered k_ij (single gases)}",
+         equi_cases("ideal", subsets(2), pl, T_LEVELS) + equi_cases("pr", subsets(2), pl, T_LEVELS) + equi_cases("kij", subsets(1), pl, T_LEVELS)),
     ]
+
+
+def harness_error(msg):
+    """A broken check must never look like a violation (exit 1) or a pass (exit 0)."""
+    sys.stderr.write("HARNESS ERROR: %s\n" % msg)
+    sys.stderr.flush()
+    raise SystemExit(2)
 
 
 def run(tier):
@@ -575,10 +641,13 @@ def run(tier):
         "identities for which the statement gives no tolerance (p_i = x_i P, sum p_i = P, phi_i p_i = 10^SI_i) are judged at the statement's general 1e-4 relative (measured solver noise at 0.01 atm is up to ~2e-5)",
         "rows whose reported total pressure is outside 0.01..1000 atm are outside the quantifier and not judged; components with mole fraction < 1e-9 are not judged component-wise (below the resolution of the solver: convergence tolerance 1e-8 relative to element totals)",
         "every solution has 0.1 kg water and the gas 1 L (initially), so that low-pressure gas is not a trace of the system",
+        "pre-saturated solutions: pH by charge balance, phase boundary of each gas's element/valence at the gas's partial pressure; NH3 boundary capped at 0.1 atm (phreeqc.dat has no aqueous solution for NH3 at >= 1 atm)",
+        "history 'warm' = the same calculation at 60 C (reactants numbered 9) precedes the judged one in the same instance; only the second is judged",
+        "not-completed runs (rc != 0) are counted and not judged; they are convergence failures of the batch reaction, mostly at 300/1000 atm or in redox-reactive gas pairs",
         "EQUILIBRIUM_PHASES: the fugacity coefficient is compared with the pure-gas equation of state for a single gas only; for two gases only fugacity = 10^SI is judged",
     ]
     pool = core.Pool()
-    dl = core.Deadline(150 if tier == "quick" else 1500)
+    dl = core.Deadline(120 if tier == "quick" else 1200)
     st = Stats()
     total = 0
     stop = False
@@ -614,22 +683,26 @@ def run(tier):
     ev.extra["samples_distinct_outcomes"] = [by_outcome[k] for k in keys[::max(1, len(keys) // 8)][:8]]
     ev.extra["lattice_points"] = total
     ev.extra["completed_runs"] = st.completed
+    ev.extra["not_completed_runs"] = total - st.completed
     ev.extra["not_completed_reasons"] = dict(sorted(st.nc.items(), key=lambda kv: -kv[1])[:12])
     ev.extra["relations"] = {k: {"judged": v[0], "max_residual": v[1]} for k, v in sorted(st.rel.items())}
     ev.extra["row_classes"] = dict(sorted(st.flags.items()))
-    ev.extra["alphabet"] = {"gases": GASES, "P_atm": P_LEVELS, "T_C": T_LEVELS if tier != "quick" else [25.0, 100.0, 200.0],
-                            "modes": "type{V,P} x init{pp,mol,equil(V only)} x solution{water,sat}", "databases": ["ideal", "pr", "kij"],
+    ev.extra["alphabet"] = {"gases": GASES, "P_atm": P_LEVELS if tier == "quick" else P_LEVELS_T, "T_C": T_LEVELS if tier != "quick" else [25.0, 100.0, 200.0],
+                            "modes (type, init, solution, history)": MODES if tier == "quick" else MODES_T, "databases": ["ideal", "pr", "kij"],
                             "kij_table": KIJ_TABLE}
     pool.close()
     # vacuity guards (harness errors, exit 2)
     if total and st.completed < 0.5 * total:
-        raise SystemExit("C19 harness: only %d of %d lattice points completed - the check is broken, not violated" % (st.completed, total))
+        harness_error("C19 harness: only %d of %d lattice points completed - the check is broken, not violated" % (st.completed, total))
     if not stop:
         for k in ("eos-PR", "eos-ideal", "phi", "phi_i p_i = 10^SI_i", "p_i = x_i P", "equi: phi", "initial: eos-PR"):
             if st.rel.get(k, [0])[0] < 50:
-                raise SystemExit("C19 harness: relation %r was judged only %d times" % (k, st.rel.get(k, [0])[0]))
+                harness_error("C19 harness: relation %r was judged only %d times" % (k, st.rel.get(k, [0])[0]))
+        warm = sum(v for k, v in st.flags.items() if k.startswith("history:warm"))
+        if warm < 50:
+            harness_error("C19 harness: only %d completed rows in the history dimension" % warm)
         if len(ev.outcomes) < 10:
-            raise SystemExit("C19 harness: only %d distinct outcomes" % len(ev.outcomes))
+            harness_error("C19 harness: only %d distinct outcomes" % len(ev.outcomes))
     return core.finish(ev, findings)
 
 
